@@ -263,7 +263,7 @@ Proof.
         - intros y. apply tw_of_set_todo.
         - apply hstep_same; auto. intros h.
           destruct (todo_set_todo_cases g t (UserBody r) h) as [E|E]; [left; exact E | right; rewrite E; apply nh_user]. }
-      destruct ac as [| | | |b now|u]; cbn [fst]; try exact Hq.
+      destruct ac as [| | | |b now|u|v]; cbn [fst]; try exact Hq.
       * apply (sdelta_quiet g _ []); auto; try nopush; try noab.
         -- intros y. rewrite tw_of_set_reg. apply tw_of_set_todo.
         -- apply hstep_same; auto. intros h. unfold set_reg. rewrite todo_set_task.
@@ -345,6 +345,6 @@ Proof.
     2-5: destruct Hpc as [_ Hs]; cbn [sub_of] in Hs;
          match goal with |- context [sub_step ?gg ?s] =>
            assert (H := sub_step_sdelta gg s Hs); destruct (sub_step gg s) as [g' s']; exact H end.
-    destruct acts as [|[| | | |b now|u] r]; cbn [fst]; try apply sdelta_refl.
+    destruct acts as [|[| | | |b now|u|v] r]; cbn [fst]; try apply sdelta_refl.
     apply sdelta_spawn; auto.
 Qed.
